@@ -17,8 +17,15 @@ var errUserCause = errors.New("c07: user-supplied cancellation cause")
 
 type ctxKey struct{}
 
-var cancelFlavours = []string{"cancel-cause", "cancel-cause-nil", "cancel-parent-cause-via-value", "cancel-parent-cause-via-cancel", "cancel-child-of-cause-parent"}
-var deadlineFlavours = []string{"deadline-timeoutcause", "deadline-deadlinecause", "deadline-parent-cause"}
+var cancelFlavours = []string{"cancel-cause", "cancel-cause-nil", "cancel-parent-cause-via-value", "cancel-parent-cause-via-cancel", "cancel-child-of-cause-parent",
+	// cancelled contexts that also carry a deadline far in the future: ctx.Err() is context.Canceled
+	"cancel-of-timeout-ctx", "cancel-of-deadline-ctx", "cancel-parent-of-deadline-child", "cancel-cause-parent-of-deadline-child"}
+var deadlineFlavours = []string{"deadline-timeoutcause", "deadline-deadlinecause", "deadline-parent-cause", "deadline-parent-cancellable-child"}
+
+// ctxCauses: every cause that is delivered through the context.
+func ctxCauses() []string {
+	return append(append([]string{"cancel", "deadline"}, cancelFlavours...), deadlineFlavours...)
+}
 
 // causeKind maps a cause (flavour) to cancel | deadline | close.
 func causeKind(cause string) string {
@@ -61,6 +68,24 @@ func newCallCtx(cause string, before bool) (ctx context.Context, fire func(), cl
 		p, cancel := context.WithCancelCause(bg)
 		c, c2 := context.WithCancel(p)
 		return c, c2, func() { c2(); cancel(nil) }
+	case "cancel-of-timeout-ctx":
+		c, cancel := context.WithTimeout(bg, time.Hour)
+		return c, cancel, cancel
+	case "cancel-of-deadline-ctx":
+		c, cancel := context.WithDeadline(bg, time.Now().Add(24*time.Hour))
+		return c, cancel, cancel
+	case "cancel-parent-of-deadline-child":
+		p, cancel := context.WithCancel(bg)
+		c, c2 := context.WithTimeout(p, time.Hour)
+		return c, cancel, func() { c2(); cancel() }
+	case "cancel-cause-parent-of-deadline-child":
+		p, cancel := context.WithCancelCause(bg)
+		c, c2 := context.WithTimeout(p, time.Hour)
+		return c, func() { cancel(errUserCause) }, func() { c2(); cancel(nil) }
+	case "deadline-parent-cancellable-child":
+		p, cancel := context.WithTimeout(bg, d)
+		c, c2 := context.WithCancel(p)
+		return c, func() {}, func() { c2(); cancel() }
 	case "deadline":
 		c, cancel := context.WithTimeout(bg, d)
 		return c, func() {}, cancel
